@@ -16,23 +16,25 @@ LEVEL_TEXT = ('every combination of payload shape (symlinks to outside files/dir
               'successful unlink/rmdir/rename/chmod/open-for-write whose resolved entry path lies outside them')
 LEVEL_NOTE = 'one injected error per run (pairs of errors are not explored for the purging commands); trusted: the shim\'s entry-path resolution (realpath of the parent + basename); running as root, so mode-000 directories do not block deletion'
 RULE = ('payload {link->outside file abs/rel, link->outside dir abs/rel, dangling, tree with outside links at depth 1,2,3, tree with mode-000 child dir, plain file} x info name '
-        '{plain, x.trashinfo.trashinfo, name with newline} x reach {direct home, XDG_DATA_HOME symlink, .Trash-uid symlink, Trash/info itself a symlink with a decoy files/ beside its target} x command {empty, empty 0, rm *, rm exact} x orphan-symlink '
+        '{plain, x.trashinfo.trashinfo, name with newline} x reach {direct home, XDG_DATA_HOME symlink, .Trash-uid symlink, Trash/info itself a symlink with a decoy files/ beside its target, $HOME below a directory called info, --trash-dir LINK/../dir with a look-alike where a lexical collapse would point} x command {empty, empty 0, rm *, rm exact} x orphan-symlink '
         'payload {yes,no}; plus {file, tree, link} x reach x command with an info file named .trashinfo / ..trashinfo / ...trashinfo and a file beside files/ and info/; second stage: for every payload x reach {direct, .Trash-uid symlink, info symlink; thorough + XDG symlink} x command {empty, empty 0, rm *; thorough + rm exact} every operation of the fault-free trace answers with every errno it can return, once and (mutating calls) persistently - containment oracle only; non-trivial = at least one deletion syscall was issued; distinct = (payload, name, reach, command, outcome)')
 PAYLOADS = ['lf-abs', 'lf-rel', 'ld-abs', 'ld-rel', 'dang', 'tree1', 'tree2', 'tree3', 'tree000', 'file']
 NAMES = ['plain', 'dbl', 'newline']
 STRAYS = ['.trashinfo', '..trashinfo', '...trashinfo']
-REACH = ['direct', 'xdg-link', 'alt-link', 'info-link', 'home-named-info']
+REACH = ['direct', 'xdg-link', 'alt-link', 'info-link', 'home-named-info', 'tdopt-dotdot']
 CMDS = ['empty', 'empty0', 'rm-star', 'rm-exact', 'empty-v', 'empty0-v']
 
 
 def dimensions(tier):
-    return {'payload': len(PAYLOADS), 'info_name': 3, 'reach': 5, 'command': 6, 'orphan_link': 2}
+    return {'payload': len(PAYLOADS), 'info_name': 3, 'reach': len(REACH), 'command': 6, 'orphan_link': 2}
 
 
 def cases(tier):
-    out = [{'pl': p, 'nm': n, 'reach': r, 'cmd': c, 'orphan': o} for o in (0, 1) for c in CMDS for r in REACH for n in NAMES for p in PAYLOADS]
+    out = [{'pl': p, 'nm': n, 'reach': r, 'cmd': c, 'orphan': o} for o in (0, 1) for c in CMDS for r in REACH for n in NAMES for p in PAYLOADS
+           if not (r == 'tdopt-dotdot' and c.startswith('rm'))]          # trash-rm has no --trash-dir option
     # an info file whose name is nothing but the suffix, or '.' / '..' + suffix: its "payload" would be files/, files/. or files/.. (the trash directory)
-    out += [{'pl': p, 'nm': 'plain', 'reach': r, 'cmd': c, 'orphan': 0, 'stray': st} for st in STRAYS for c in CMDS for r in REACH for p in ('file', 'tree1', 'ld-abs')]
+    out += [{'pl': p, 'nm': 'plain', 'reach': r, 'cmd': c, 'orphan': 0, 'stray': st} for st in STRAYS for c in CMDS for r in REACH for p in ('file', 'tree1', 'ld-abs')
+            if not (r == 'tdopt-dotdot' and c.startswith('rm'))]
     return out
 
 
@@ -103,6 +105,13 @@ def run_case(c):
     elif c['reach'] == 'info-link':
         td = phys = scen.HOME_TRASH
         rel = False
+    elif c['reach'] == 'tdopt-dotdot':
+        # --trash-dir LINK/../old : the kernel resolves LINK first (-> /mnt/v1/old); a lexical collapse would name /home/u/old, a look-alike that is NOT operated on
+        td = phys = '/mnt/v1/old'
+        rel = False
+        W.dir('/mnt/v1/data').link('/home/u/usb', '/mnt/v1/data')
+        W.dir('/home/u/old/files').dir('/home/u/old/info').file('/home/u/old/files/victim', 'look-alike, not in the trash\n').file('/home/u/old/files/loose', 'look-alike\n')
+        W.file('/home/u/old/info/victim.trashinfo', '[Trash Info]\nPath=/home/u/w/lookalike\nDeletionDate=2001-01-01T00:00:00\n')
     else:
         W.dir('/mnt/v1/realtrash', mode=0o700).link('/mnt/v1/.Trash-0', 'realtrash')
         td, phys = '/mnt/v1/.Trash-0', '/mnt/v1/realtrash'
@@ -133,6 +142,8 @@ def run_case(c):
         W.link(phys + '/files/orphan-link', '/outside/dir')
     argv = {'empty': ['trash-empty'], 'empty0': ['trash-empty', '0'], 'rm-star': ['trash-rm', '*'], 'rm-exact': ['trash-rm', 'orig-name'],
             'empty-v': ['trash-empty', '-v'], 'empty0-v': ['trash-empty', '-v', '0']}[c['cmd']]
+    if c['reach'] == 'tdopt-dotdot':
+        argv = argv + ['--trash-dir', '/home/u/usb/../old']
     with cell.Sandbox(W.spec()) as sb:
         before = sb.snapshot()
         flts = c.get('faults') or []
